@@ -265,7 +265,15 @@ def check_digests():
     return bad
 
 
+class StopSearch(Exception):
+    """The time budget of this run is used up (only raised once a proof/tie is broken or violations were found)."""
+
+
 class Ctx:
+    # wall-clock limits of run(ctx): generous for a normal run; a run that has turned into a search is cut off
+    LIMIT = {"quick": 900, "thorough": 3000}
+    SEARCH_LIMIT = {"quick": 480, "thorough": 1500}
+
     def __init__(self, prop, tier, seed):
         self.prop, self.tier, self.seed = prop, tier, seed
         self.quick = tier == "quick"
@@ -287,9 +295,15 @@ class Ctx:
         self.trusted = []
         self.checker_cmd = ""
         self.findings = load_known()
+        self.run_started = None
+        self._broken_seen = {}
 
     # ---- bookkeeping
     def case(self, key=None, nontrivial=True, n=1):
+        if self.run_started is not None:
+            spent = time.time() - self.run_started
+            if (self.broken or self.violations) and spent > self.SEARCH_LIMIT[self.tier]:
+                raise StopSearch("search budget of %d s used up" % self.SEARCH_LIMIT[self.tier])
         self.evaluations += n
         if nontrivial and key is not None:
             self.distinct.add(hashlib.sha1(repr(key).encode()).hexdigest())
@@ -341,6 +355,10 @@ class Ctx:
         return True
 
     def tie_broken(self, what, detail=None):
+        n = self._broken_seen.get(what, 0)
+        self._broken_seen[what] = n + 1
+        if n >= 3:          # the same obligation/tie: keep the first three witnesses only
+            return
         self.broken.append({"what": what, "detail": detail})
         print("[%s] no longer checks: %s" % (self.prop, what))
         sys.stdout.flush()
@@ -528,8 +546,12 @@ def main(argv):
         from harness.kmodel import KModel
         ctx.km = KModel()
     # 4-6 correspondence, observation, search
+    ctx.run_started = time.time()
     try:
         mod.run(ctx)
+    except StopSearch as e:
+        print("[%s] %s" % (prop, e))
+        ctx.coverage_extra["search_cut_off"] = str(e)
     except Exception as e:  # noqa
         ctx.tie_broken("harness crashed: %r" % e, traceback.format_exc())
         traceback.print_exc()
